@@ -148,6 +148,14 @@ func (m *Metadata) UnmarshalBinary(data []byte) error {
 	// Read count and pre-size map to avoid rehashing.
 	count := int(binary.BigEndian.Uint16(data[pos:]))
 	pos += 2
+
+	// Every header occupies at least 4 bytes (its two length prefixes) and the
+	// deadline 8 more. Reject a count the section cannot hold before sizing
+	// the map, so a tiny malformed section cannot force a 65535-entry allocation.
+	if count*4 > len(data)-10 {
+		return ErrInvalidMetadata
+	}
+
 	m.headers = make(map[string]string, count)
 
 	for range count {
